@@ -1,6 +1,7 @@
 package gofakes3
 
 import (
+	"errors"
 	"fmt"
 	"io"
 	"io/ioutil"
@@ -10,6 +11,7 @@ type chunkedReader struct {
 	inner         io.Reader
 	chunkRemain   int
 	notFirstChunk bool
+	done          bool // the final, zero-length chunk has been read
 }
 
 func newChunkedReader(inner io.Reader) *chunkedReader {
@@ -20,7 +22,20 @@ func newChunkedReader(inner io.Reader) *chunkedReader {
 	}
 }
 
+// truncated turns the end of the transport stream into io.ErrUnexpectedEOF:
+// an aws-chunked body only ends after its zero-length final chunk.
+func truncated(err error) error {
+	if err == io.EOF {
+		return io.ErrUnexpectedEOF
+	}
+	return err
+}
+
 func (r *chunkedReader) Read(p []byte) (n int, err error) {
+	if r.done {
+		return 0, io.EOF
+	}
+
 	sizeToRead := len(p)
 	for sizeToRead > 0 {
 		if r.chunkRemain > sizeToRead {
@@ -33,7 +48,7 @@ func (r *chunkedReader) Read(p []byte) (n int, err error) {
 			sizeToRead -= innerN
 			n += innerN
 			if err != nil {
-				return n, err
+				return n, truncated(err)
 			}
 		} else if r.chunkRemain > 0 {
 			// read until this chunk ends
@@ -41,8 +56,8 @@ func (r *chunkedReader) Read(p []byte) (n int, err error) {
 			r.chunkRemain -= innerN
 			n += innerN
 			sizeToRead -= innerN
-			if err != nil {
-				return n, err
+			if err != nil && !(err == io.EOF && r.chunkRemain == 0) {
+				return n, truncated(err)
 			}
 		} else {
 			if !r.notFirstChunk {
@@ -52,19 +67,27 @@ func (r *chunkedReader) Read(p []byte) (n int, err error) {
 				// skip last chunk's b"\r\n"
 				_, err = io.CopyN(ioutil.Discard, r.inner, 2)
 				if err != nil {
-					return n, err
+					return n, truncated(err)
 				}
 			}
 			// read next chunk header
 			chunkSize := 0
 			_, err = fmt.Fscanf(r.inner, "%x;", &chunkSize)
 			if err != nil {
-				return n, err
+				return n, truncated(err)
+			}
+			if chunkSize < 0 {
+				return n, errors.New("negative chunk size")
 			}
 			r.chunkRemain = chunkSize
 			_, err = io.CopyN(ioutil.Discard, r.inner, 16+64+2) // "chunk-signature=" + sizeOfHash + "\r\n"
 			if err != nil {
-				return n, err
+				return n, truncated(err)
+			}
+			if chunkSize == 0 {
+				// The zero-length chunk terminates the body.
+				r.done = true
+				return n, io.EOF
 			}
 		}
 	}
